@@ -198,6 +198,32 @@ def _gen_variants(rng, gene, contig_seq, opts):
         v["region"] = _region_of(gene, g)
         taken.append(span)
         gene["variants"][v["id"]] = v
+    # a cluster: an insertion / deletion within a short read's reach of an existing substitution
+    if opts.get("cluster"):
+        snps = [v for v in gene["variants"].values() if v["kind"] == "snp"]
+        for _ in range(40):
+            if not snps:
+                break
+            base = rng.choice(snps)
+            g = base["g"] + rng.choice([-1, 1]) * rng.randint(18, 35)
+            if not (g0 + 10 < g < g1 - 10) or not clear(g, g + 3):
+                continue
+            if rng.random() < 0.6:
+                x = rand_seq(rng, rng.randint(1, 4))
+                if x[-1] == seq[g] or x[0] == seq[g + 1]:
+                    continue
+                v = {"kind": "ins", "g": g, "ref": "", "alt": x}
+            else:
+                k = rng.randint(1, 3)
+                if seq[g - 1] == seq[g + k - 1] or seq[g] == seq[g + k]:
+                    continue
+                v = {"kind": "del", "g": g, "ref": "".join(seq[g: g + k]), "alt": ""}
+            vid += 1
+            v["id"] = f"v{vid}"
+            v["region"] = _region_of(gene, g)
+            taken.append((g, g + 3))
+            gene["variants"][v["id"]] = v
+            break
     # a substitution on the very first / last base of the RefSeq-mapped range
     if opts.get("edge_variant"):
         for g in ([g1 - 1] if opts["edge_variant"] == "last" else [g0] if opts["edge_variant"] == "first" else [g0, g1 - 1]):
